@@ -374,6 +374,17 @@ int main() {
     if (r) vio("out-of-range-accepted", "16", 0, BAD16[i]);
     for (int k = 0; k < 30; ++k) if (z[k] != 0x5A) { vio("malformed-changed-destination", "16", k, BAD16[i]); break; }
   }
+  // just outside every wider type: max+1 .. max+16, min-1 .. min-16, in base 10 and 16
+#define OUTSIDE(FIELD, TEXT) { unsigned char z[30]; std::memset(z, 0x5A, 30); auto zv = G::MakeCcView(z, 30); ++g_n; \
+    if (::emboss::UpdateFromText(zv.FIELD(), std::string(TEXT))) vio("out-of-range-accepted", #FIELD, 0, TEXT); \
+    for (int k = 0; k < 30; ++k) if (z[k] != 0x5A) { vio("malformed-changed-destination", #FIELD, k, TEXT); break; } }
+  OUTSIDE(u32, "4294967296") OUTSIDE(u32, "4294967299") OUTSIDE(u32, "4294967305") OUTSIDE(u32, "0x100000000") OUTSIDE(u32, "0x10000000f") OUTSIDE(u32, "-1")
+  OUTSIDE(i32, "2147483648") OUTSIDE(i32, "2147483649") OUTSIDE(i32, "2147483657") OUTSIDE(i32, "0x80000000") OUTSIDE(i32, "0x8000000f")
+  OUTSIDE(i32, "-2147483649") OUTSIDE(i32, "-2147483657") OUTSIDE(i32, "-0x80000001") OUTSIDE(i32, "-0x8000000f") OUTSIDE(i32, "0b10000000000000000000000000000000")
+  OUTSIDE(u64, "18446744073709551616") OUTSIDE(u64, "18446744073709551619") OUTSIDE(u64, "18446744073709551625") OUTSIDE(u64, "0x10000000000000000") OUTSIDE(u64, "0x1000000000000000f")
+  OUTSIDE(i64, "9223372036854775808") OUTSIDE(i64, "9223372036854775809") OUTSIDE(i64, "9223372036854775817") OUTSIDE(i64, "0x8000000000000000") OUTSIDE(i64, "0x800000000000000f")
+  OUTSIDE(i64, "-9223372036854775809") OUTSIDE(i64, "-9223372036854775817") OUTSIDE(i64, "-0x8000000000000001") OUTSIDE(i64, "-0x800000000000000f")
+  OUTSIDE(u8, "0x100") OUTSIDE(u8, "0b100000000") OUTSIDE(i8, "128") OUTSIDE(i8, "-129") OUTSIDE(i8, "0x80") OUTSIDE(i8, "-0x81") OUTSIDE(u16, "65540") OUTSIDE(i16, "-32770")
   std::printf("SUMMARY n=%llu viol=%llu\n", g_n, g_viol);
   return 0;
 }
